@@ -189,7 +189,7 @@ def run_check(modname, tier, seed, jobs=None):
     known_lines = []
     for key in sorted(by_key):
         vs = by_key[key]
-        first = min(vs, key=lambda v: len(json.dumps(v, default=repr)))
+        first = min(vs, key=lambda v: (v.get("snippet") is None, len(json.dumps(v, default=repr))))
         first = dict(first, property=pid, occurrences_seen=len(vs), tier=tier, seed=seed)
         if key in open_keys:
             known_lines.append(f"KNOWN-FINDING: property={pid} {open_keys[key].get('what', key)}")
